@@ -10,7 +10,7 @@ import (
 )
 
 func Harness_C20_RelmodUntidy() {
-	shape := nd.IntRange("shape", 0, 3)
+	shape := nd.IntRange("shape", 2, 3) // shapes 0 and 1 cannot come out of the compiler
 	label := ""
 	app := &sysl.Application{Name: &sysl.AppName{Part: []string{"App"}}, Endpoints: map[string]*sysl.Endpoint{}}
 	switch shape {
